@@ -67,7 +67,8 @@ struct Unit {
 constexpr int MAXT = 8;
 static std::deque<Unit> mailbox[MAXT];
 static long sent, processed, in_flight; // in_flight: units popped but not yet fully processed
-static long idle_reports[MAXT];         // localTermination(false) calls since quiescence
+static long idle_reports[MAXT];         // 1 = completed a localTermination(false) call in the current epoch
+static long epochs_since_quiescence;    // epoch = every thread completed at least one idle report since the previous epoch ended
 static bool quiescent;
 static long late_delivery; // unit delivered to a thread after it had reported idle at least once in this round
 static long reported_idle_once[MAXT];
@@ -111,6 +112,7 @@ void run(const Case& c) {
         mailbox[i].clear();
         idle_reports[i] = 0;
         reported_idle_once[i] = 0;
+        epochs_since_quiescence = 0;
         int k = (int)(prf(wseed, r, i, 1) % (uint64_t)(c[F_INIT] + 1));
         for (int j = 0; j < k; ++j) {
           mailbox[i].push_back(Unit{(uint64_t)((r * 64 + i) * 8 + j + 1) * 1000003ULL, 0});
@@ -165,26 +167,40 @@ void run(const Case& c) {
               quiescent = true;
               for (unsigned i = 0; i < n; ++i)
                 idle_reports[i] = 0;
+              epochs_since_quiescence = 0;
               gsched_liveness_mark(300000, 3000000);
             }
           }
         }
+        bool idle_report = false;
         {
           Quiet q;
           if (!didWork) {
             reported_idle_once[tid] = 1;
-            if (quiescent) {
-              ++idle_reports[tid];
-              long epochs = idle_reports[0];
-              for (unsigned i = 1; i < n; ++i)
-                epochs = std::min(epochs, idle_reports[i]);
-              if (epochs > 8 * (long)n + 8)
-                vfail("late-announcement", "round %d, %u threads: every thread made %ld idle reports after quiescence and termination "
-                      "is still not announced (bound %ld)", r, n, epochs, 8 * (long)n + 8);
-            }
+            idle_report             = quiescent;
           }
         }
         term->localTermination(didWork);
+        if (idle_report) {
+          // promptness: the token moves one hop at the latest when its holder has COMPLETED two
+          // idle reports (the first may have looked before the token arrived); a ring or tree
+          // needs at most four sweeps after quiescence (one in progress, one tainted by threads
+          // that worked after being visited, two clean).  Epochs are counted over completed
+          // reports of EVERY thread, so a starved holder does not count against the detector.
+          Quiet q;
+          idle_reports[tid] = 1;
+          bool all = true;
+          for (unsigned i = 0; i < n; ++i)
+            all &= idle_reports[i] != 0;
+          if (all) {
+            for (unsigned i = 0; i < n; ++i)
+              idle_reports[i] = 0;
+            ++epochs_since_quiescence;
+            if (epochs_since_quiescence > 8 * (long)n + 16 && !term->globalTermination())
+              vfail("late-announcement", "round %d, %u threads: %ld epochs (every thread completed an idle report) after quiescence and "
+                    "termination is still not announced (bound %ld)", r, n, epochs_since_quiescence, 8 * (long)n + 16);
+          }
+        }
         gsched_point();
         if (term->globalTermination()) {
           Quiet q;
